@@ -137,6 +137,20 @@ theorem ex_split_tiger : ∃ parts, runSplitFrom [dropT] .tigerxml {} (some "utf
   refine ⟨_, rfl, ?_⟩
   decide +kernel
 
+/-- `split_tiger` on it: both parts are complete documents, the bodies give the unsplit document -/
+example : ∃ parts bodies : List Str,
+    runSplitFrom [dropT] .tigerxml {} (some "utf-8".toList) "1#_rest".toList (.ok [(1, t1), (2, t2), (3, t3)]) = .ok parts ∧
+    parts = bodies.map (fun b => ((tigerBegin (some "utf-8".toList)).map (· ++ ['\n'])).flatten ++ b ++ tigerEnd) ∧
+    runFrom [dropT] .tigerxml {} (some "utf-8".toList) (.ok [(1, t1), (2, t2), (3, t3)]) =
+      .ok (((tigerBegin (some "utf-8".toList)).map (· ++ ['\n'])).flatten ++ bodies.flatten ++ tigerEnd) := by
+  obtain ⟨parts, hp, _⟩ := ex_split_tiger
+  obtain ⟨bodies, h1, h2⟩ := split_tiger _ _ _ _ _ parts hp
+  exact ⟨parts, bodies, hp, h1, h2⟩
+
+example : transformAll [dropT, relab] ([(1, t1), (2, t2)] ++ [(3, t3), (4, t1), (5, t2)]) =
+    (do let x ← transformAll [dropT, relab] [(1, t1), (2, t2)]; let y ← transformAll [dropT, relab] [(3, t3), (4, t1), (5, t2)]; pure (x ++ y)) :=
+  transformAll_append _ _ _
+
 example : applySteps' ([dropT] ++ [relab]) t2 = .ok none ∧ applySteps' ([relab] ++ [dropT]) t1 = .ok (some relab1) := ⟨rfl, rfl⟩
 
 end TT.Props.C17Run
